@@ -115,6 +115,8 @@ def _nested_target(attrs, key):
         inner = v.get("k")
         if isinstance(inner, list):
             return inner
+    if isinstance(v, tuple) and v and isinstance(v[0], list):
+        return v[0]
     return None
 
 
